@@ -220,9 +220,14 @@ def parse_nat_lists(out: str) -> list[list[int]]:
 # ----------------------------------------------------------------------------
 def load_known() -> dict:
     p = VERIF / "known_findings.json"
-    if not p.exists():
-        return {"findings": [], "fixed": []}
-    return json.loads(p.read_text())
+    res = {"findings": [], "fixed": []}
+    if p.exists():
+        res = json.loads(p.read_text())
+    extra = os.environ.get("VERIF_KNOWN")      # builders' local testing only
+    if extra and Path(extra).exists():
+        e = json.loads(Path(extra).read_text())
+        res["findings"] = list(res.get("findings", [])) + (e if isinstance(e, list) else e.get("findings", []))
+    return res
 
 
 class Run:
